@@ -150,7 +150,8 @@ fn worker(prop: &'static str, thorough: bool, seed: u64, first_run: u64, runs: u
         }
         let mut rng = rng::Rng::for_run(seed, i, 0);
         let mut gstats = Probes::new();
-        let (trace, cfg) = gen::Gen::generate(&mut rng, &preset, &mut gstats, i);
+        let (mut trace, cfg) = gen::Gen::generate(&mut rng, &preset, &mut gstats, i);
+        gen::add_hops(&mut trace, &mut rng::Rng::for_run(seed, i, 1), &preset, &mut gstats);
         let res = Exec::run(&trace);
         out.probes.add(&gstats);
         out.probes.add(&res.probes);
@@ -314,6 +315,7 @@ fn shape(t: &Trace) -> String {
             Ev::Repeat { k, .. } => s.push_str(&format!("repeat{}", k)),
             Ev::Snapshot => s.push_str("snapshot"),
             Ev::Restore => s.push_str("restore"),
+            Ev::Hop { .. } => s.push_str("hop"),
             Ev::Fork { .. } => s.push_str("fork"),
         }
     }
@@ -381,7 +383,8 @@ fn cmd_gen(a: &Args) -> i32 {
     let preset = gen::preset_for(prop);
     let mut rng = rng::Rng::for_run(seed, run, 0);
     let mut st = Probes::new();
-    let (trace, cfg) = gen::Gen::generate(&mut rng, &preset, &mut st, run);
+    let (mut trace, cfg) = gen::Gen::generate(&mut rng, &preset, &mut st, run);
+    gen::add_hops(&mut trace, &mut rng::Rng::for_run(seed, run, 1), &preset, &mut st);
     let res = Exec::run(&trace);
     println!("{}", J::obj().set("knobs", cfg.to_json()).set("trace", trace.to_json()).pretty());
     for v in res.violations.iter() {
@@ -688,7 +691,7 @@ fn evidence_json(
     }
     cov.put("simulated_time_ns_finite_part", J::Str(p.sim_time_ns.to_string()));
     cov.put("infinite_clock_jumps", J::u(p.infinite_jumps));
-    cov.put("events", J::obj().set("deliveries", J::u(p.deliveries)).set("polls", J::u(p.polls)).set("resets", J::u(p.resets)).set("clock_advances", J::u(p.advances)).set("forks", J::u(p.forks)).set("snapshots", J::u(p.snapshots)).set("restores", J::u(p.restores)).set("bare_resets_inside_reset_storms", J::u(p.reset_storm_resets)).set("soak_loops", J::u(p.soak_loops)).set("steps_inside_soak_loops", J::u(p.soak_steps)).set("enc_cc14", J::u(p.enc_cc14)).set("enc_pn", J::u(p.enc_pn)).set("ingest_rejected", J::u(p.ingest_rejected)).set("ingest_mismatch", J::u(p.ingest_mismatch)).set("factory_rebuild_mismatch", J::u(p.factory_rebuild_mismatch)).set("accessor_mismatch", J::u(p.accessor_mismatch)).set("telemetry_mismatch", J::u(p.telemetry_mismatch)).set("garbled_text_parses_ok_plus_calls", J::u(p.garbled_parses)));
+    cov.put("events", J::obj().set("deliveries", J::u(p.deliveries)).set("polls", J::u(p.polls)).set("resets", J::u(p.resets)).set("clock_advances", J::u(p.advances)).set("forks", J::u(p.forks)).set("snapshots", J::u(p.snapshots)).set("restores", J::u(p.restores)).set("bare_resets_inside_reset_storms", J::u(p.reset_storm_resets)).set("soak_loops", J::u(p.soak_loops)).set("steps_inside_soak_loops", J::u(p.soak_steps)).set("thread_hop_windows", J::u(p.thread_hop_windows)).set("calls_on_the_main_instance_executed_on_another_os_thread", J::u(p.calls_on_another_thread)).set("enc_cc14", J::u(p.enc_cc14)).set("enc_pn", J::u(p.enc_pn)).set("ingest_rejected", J::u(p.ingest_rejected)).set("ingest_mismatch", J::u(p.ingest_mismatch)).set("factory_rebuild_mismatch", J::u(p.factory_rebuild_mismatch)).set("accessor_mismatch", J::u(p.accessor_mismatch)).set("telemetry_mismatch", J::u(p.telemetry_mismatch)).set("garbled_text_parses_ok_plus_calls", J::u(p.garbled_parses)));
     cov.put("reports", J::obj().set("cc14", J::u(p.reports_cc14)).set("pn", J::u(p.reports_pn)).set("polling_feed", J::u(p.reports_polling_feed)).set("polling_poll", J::u(p.reports_polling_poll)));
     let mut ff = J::obj();
     let mut fl = J::obj();
